@@ -16,6 +16,10 @@ Items(node) ==
      (IF node.v.k = "message" THEN {Item("id", node.v.f[i].num, <<>>) : i \in 1..Len(node.v.f)} \cup {Item("id", 3, <<>>), Item("id", 1, <<>>), Item("id", 99, <<>>), Item("idx", 0, <<>>)}
       ELSE {Item("id", 1, <<>>)})
   ELSE IF node.nk = "list" THEN {Item("idx", i, <<>>) : i \in 0..Len(node.e)} \cup {Item("id", 1, <<>>)}
+       \* absent indexes beyond 2^31-1 (the harness uses the 8 big-endian bytes; for PLookup any index >= Len is absent): 2^32+i,
+       \* 2^61+i, 2^62+i - congruent to present positions once multiplied by an element width - and MaxInt64
+       \cup {Item("idx", 2147483647, <<h[1], 0, 0, h[2], 0, 0, 0, i>>) : h \in {<<0, 1>>, <<32, 0>>, <<64, 0>>}, i \in 0..(IF Len(node.e) > 0 THEN Len(node.e) - 1 ELSE 0)}
+       \cup {Item("idx", 2147483647, <<127, 255, 255, 255, 255, 255, 255, 255>>)}
   ELSE {IF node.e[i].k.k = "string" THEN Item("str", 0, node.e[i].k.b) ELSE Item("int", 0, KeyInt8(node.e[i].k)) : i \in 1..Len(node.e)}
        \cup {Item("str", 0, <<122>>), Item("int", 0, I8(77)), Item("idx", 0, <<>>)}
 Init == msg \in RootMsgs(Two) /\ path = <<>>
